@@ -171,6 +171,20 @@ def batch_validate(ctx, module, records, consts, tag):
     return out, r
 
 
+def batch_validate_parallel(ctx, module, records, consts, tag, nproc=6):
+    """batch_validate on nproc interleaved chunks of the records, one TLC process each; returns ({id: clause}, [TLCResult, ...])"""
+    from concurrent.futures import ThreadPoolExecutor
+
+    nproc = max(1, min(nproc, len(records) // 50 or 1))
+    chunks = [records[i::nproc] for i in range(nproc)]
+    with ThreadPoolExecutor(nproc) as ex:
+        res = list(ex.map(lambda a: batch_validate(ctx, module, a[1], consts, f"{tag}_{a[0]}"), enumerate(chunks)))
+    out = {}
+    for bad, _ in res:
+        out.update(bad)
+    return out, [r for _, r in res]
+
+
 def validate_traces(ctx, runs, tag="solverrun"):
     """runs: list of (tid, Run).  Returns dict tid -> (line, clause) for rejected runs."""
     path = os.path.join(ctx.scratch, f"{tag}.ndjson")
